@@ -128,7 +128,7 @@ def run (inp obs : List String) : Verdict :=
     let mU1 := if !onlyLists then "na" else
       match _root_.C14.load { fmt := 1, attrs := [], hasLib := true, robofab := { hint := some hint } } with
       | .ok _ => "loaded" | .error _ => "rejected"
-    let modelOut := s!"v={mV} s={mS} l={mL} u2={mU2} u1={mU1}"
+    let modelOut := s!"v={mV} s={mS} so={mS} sq={mS} l={mL} u2={mU2} u1={mU1}"
     -- implementation, at the compared abstraction
     let oV := obsField obs "v"
     let oS := obsField obs "s"
@@ -143,21 +143,29 @@ def run (inp obs : List String) : Verdict :=
       | "parse" => "rejected" | "invalid" => "rejected" | x => x
     let iU2 := legacyClass (obsField obs "u2")
     let iU1 := legacyClass (obsField obs "u1")
-    let implOut := s!"v={iV} s={iS} l={iL} u2={iU2} u1={iU1}"
+    -- the other public save entry points: save_with_options with default and with custom options
+    let oSo := obsField obs "so"
+    let oSq := obsField obs "sq"
+    let iSo := headOf oSo
+    let iSq := headOf oSq
+    let implOut := s!"v={iV} s={iS} so={iSo} sq={iSq} l={iL} u2={iU2} u1={iU1}"
     -- specification oracle on the implementation's own verdicts
     let viol : List String := match info? with | some i => violated i | none => []
     let feats := ",".intercalate viol
     let rulesHold := viol.isEmpty
     let spec : List String :=
       (if iV = "panic" then ["validate-panics"] else []) ++
-      (if iS = "panic" then ["save-panics"] else []) ++
       (if iL = "panic" then ["load-panics"] else []) ++
       (if iV = "ok" && !rulesHold then ["validate-accepts-violation:" ++ feats] else []) ++
       (if iV = "err" && rulesHold then ["validate-rejects-conforming"] else []) ++
-      (if iS = "ok" && !rulesHold then ["save-accepts-violation:" ++ feats] else []) ++
-      (if oS.startsWith "ok:" then ["saved-file-" ++ (oS.drop 3).toString] else []) ++
-      (if (iS = "refused" || iS = "refused-wiped" || iS = "late") && rulesHold then ["save-rejects-conforming"] else []) ++
-      (if iS = "late" || iS = "refused-wiped" then ["save-refuses-after-wipe:" ++ feats] else []) ++
+      ([("save", oS), ("save_with_options", oSo), ("save_with_options-custom", oSq)].flatMap fun (lbl, o) =>
+        let i := headOf o
+        (if i = "panic" then [lbl ++ "-panics"] else []) ++
+        (if i = "ok" && !rulesHold then [lbl ++ "-accepts-violation:" ++ feats] else []) ++
+        (if o.startsWith "ok:" then [lbl ++ "d-file-" ++ (o.drop 3).toString] else []) ++
+        (if (i = "refused" || i = "refused-wiped" || i = "late") && rulesHold then [lbl ++ "-rejects-conforming"] else []) ++
+        (if i = "late" || i = "refused-wiped" then [lbl ++ "-refuses-after-wipe:" ++ feats] else []) ++
+        (if i = "other" || i = "?" then [lbl ++ "-unexpected-result"] else [])) ++
       (if iL = "loaded" && (info?.isNone || !rulesHold || !identsOK) then ["load-accepts-violation:" ++ feats] else []) ++
       (if oL = "loaded:diff" then ["loaded-value-differs"] else []) ++
       (if iL = "rejected" && info?.isSome && rulesHold && identsOK then ["load-rejects-conforming"] else []) ++
@@ -184,10 +192,10 @@ def run (inp obs : List String) : Verdict :=
       (o.startsWith "err:" || o.startsWith "refused:" || o.startsWith "invalid:") && !rulesHold &&
         !(rulesOfKind (kindOf o)).any viol.contains
     let spec := spec ++
-      (if info?.isSome && (kindBad oV || kindBad oS || kindBad oL) then ["refusal-names-a-rule-that-holds"] else [])
+      (if info?.isSome && (kindBad oV || kindBad oS || kindBad oSo || kindBad oSq || kindBad oL) then ["refusal-names-a-rule-that-holds"] else [])
     -- tags
     let tags :=
-      [if rulesHold then "conforming" else "violating", "v-" ++ iV, "s-" ++ iS, "l-" ++ iL, "u2-" ++ iU2, "u1-" ++ iU1] ++
+      [if rulesHold then "conforming" else "violating", "v-" ++ iV, "s-" ++ iS, "so-" ++ iSo, "sq-" ++ iSq, "l-" ++ iL, "u2-" ++ iU2, "u1-" ++ iU1] ++
       viol.map ("viol-" ++ ·) ++
       (if info?.isNone then ["ill-typed"] else []) ++
       (if iV = "err" then ["kind-" ++ kindOf oV] else []) ++
